@@ -241,6 +241,53 @@ func (g *Gen) genTransfer() {
 	g.do(in)
 }
 
+// genSendV2: a raw v2 MsgSendPacket; the payload's sender is the signer most of the time
+func (g *Gen) genSendV2() {
+	w := g.w
+	c := g.r.Intn(3)
+	signer := g.localUser(c)
+	snap := w.Snapshot(c)
+	held := []string{}
+	for k, v := range snap.Bal {
+		n, d := splitKey(k)
+		if n == signer && v.IsPositive() && d != "stake" {
+			held = append(held, d)
+		}
+	}
+	if len(held) == 0 {
+		return
+	}
+	sortStrings(held)
+	denom := held[g.r.Intn(len(held))]
+	path := denom
+	if strings.HasPrefix(denom, "ibc/") {
+		ch := w.chains[c]
+		d, err := ch.GetSimApp().TransferKeeper.GetDenomFromIBCDenom(ch.GetContext(), denom)
+		if err != nil {
+			return
+		}
+		path = d.Path()
+	}
+	ends := g.ends(c)
+	e := ends[g.r.Intn(len(ends))]
+	peer, _ := w.peerOf(e.l, c, e.id)
+	in := M{"f": "sendv2", "chain": c, "chan": e.id, "denom": path, "amount": g.amount(get(snap.Bal, signer+"|"+denom)),
+		"sender": signer, "signer": signer, "tx": true, "receiver": g.receiver(peer), "memo": "", "timeout": "far", "coreErr": ""}
+	if in["amount"] == "115792089237316195423570985008687907853269984665640564039457584007913129639935" {
+		in["amount"] = "17"
+	}
+	if g.r.Chance(0.4) {
+		in["timeout"] = "near"
+	}
+	switch x := g.r.Intn(10); {
+	case x < 3:
+		in["sender"] = g.localUser(c) // possibly someone else's tokens
+	case x < 4:
+		in["sender"] = Pick(g.r, []string{"notanaddress", "mod:transfer", fmt.Sprintf("%s%d", chainLetters[peer], 1)})
+	}
+	g.do(in)
+}
+
 func sortStrings(s []string) {
 	for i := 1; i < len(s); i++ {
 		for j := i; j > 0 && s[j] < s[j-1]; j-- {
@@ -370,6 +417,8 @@ func (g *Gen) History(n int) {
 	g.do(g.w.ResetRequest())
 	for i := 0; i < n; i++ {
 		switch x := g.r.Intn(100); {
+		case x < 5:
+			g.genSendV2()
 		case x < 36:
 			g.genTransfer()
 		case x < 60:
